@@ -91,6 +91,16 @@ def l1_oracle(pid, p, impl_lines, run, desc):
             got = [x for x in d.get(tn + " generics", "").split(",") if x]
             if sorted(got) != sorted(used) or len(set(got)) != len(got):
                 run.oracle_fail("%s%s is parameterised by %s; its handlers use %s" % (prefix, base, got, used), desc)
+            # bounds: only those of the user's predicates that mention no parameter outside `used`
+            if is_c and kind in ("instantiate", "migrate"):
+                want_w = []
+                for w in p.where:
+                    mentioned = [g for g in gens if gen.mentions(w.bounded, g) or any(gen.mentions(b, g) for b in w.bounds)]
+                    if all(g in used for g in mentioned):
+                        want_w.append(canon_ty(w.rust()))
+                got_w = [x for x in d.get(tn + " impl_where", "").split(";") if x]
+                if got_w != want_w:
+                    run.oracle_fail("%s%s is constrained by %s; the user's bounds over its parameters %s are %s" % (prefix, base, got_w, used, want_w), desc)
             unused = [g for g in gens if g not in used]
             gotu = [x for x in d.get(tn + " dispatch_generics", "").split(",") if x]
             if sorted(gotu) != sorted(unused):
